@@ -18,6 +18,7 @@ import (
 	"path/filepath"
 	"runtime/debug"
 	"sort"
+	"strconv"
 	"strings"
 )
 
@@ -176,11 +177,33 @@ func runReplay(o *Out, name, file string) {
 	defer f.Close()
 	sc := bufio.NewScanner(f)
 	sc.Buffer(make([]byte, 1<<20), 1<<26)
+	var lines []string
 	for sc.Scan() {
-		line := sc.Text()
-		if line == "" {
-			continue
+		if line := sc.Text(); line != "" {
+			lines = append(lines, line)
 		}
+	}
+	// ops that name a Zobrist seed need the table of that seed registered with the driver first
+	seen := map[int64]bool{}
+	for _, line := range lines {
+		f := strings.Fields(line)
+		k := -1
+		switch f[0] {
+		case "game", "search", "engine":
+			k = 1
+		case "uci":
+			k = 2
+		case "iter":
+			f, k = []string{"iter", "0"}, 1
+		}
+		if k > 0 && k < len(f) {
+			if seed, err := strconv.ParseInt(f[k], 10, 64); err == nil && !seen[seed] {
+				seen[seed] = true
+				o.do(ztableLine(seed))
+			}
+		}
+	}
+	for _, line := range lines {
 		o.do(line)
 	}
 }
